@@ -280,8 +280,17 @@ class WKCResource(Resource):
             elif k in ("href",):  # x.href is single valued
                 filters.append(lambda link: matchexp(getattr(link, k)))
             else:
+
+                def values(link, k=k):
+                    value = getattr(link, k, ())
+                    # single-valued attributes (title, rel, anchor, ...) are
+                    # reported as a plain string, not as a list of values
+                    return (value,) if isinstance(value, str) else value
+
                 filters.append(
-                    lambda link: any(matchexp(part) for part in getattr(link, k, ()))
+                    lambda link, values=values: any(
+                        matchexp(part) for part in values(link)
+                    )
                 )
 
         while filters:
